@@ -503,16 +503,17 @@ fn ppc_isa() -> Isa {
         ("addi-r3", p(&[0x38630001])),
         ("stw-r31", p(&[0x93e1001c])),
     ];
+    // the PPC translator lifts no conditional branch (`cmpwi` and `beq`/`bne` are rejected: "Could not find
+    // register", "Unhandled instruction"), so the shapes use the unconditional `b`: code that is jumped over,
+    // and a loop without exit
     fn cf(skip: usize) -> Vec<u8> {
-        // cmpwi r3,0 ; beq +(skip+4)
-        words(&[0x2c030000, 0x41820000 | ((skip as u32 + 4) & 0xfffc)], true)
+        words(&[0x48000000 | ((skip as u32 + 4) & 0x03fffffc)], true)
     }
     fn jf(skip: usize) -> Vec<u8> {
         words(&[0x48000000 | ((skip as u32 + 4) & 0x03fffffc)], true)
     }
     fn cb(back: usize) -> Vec<u8> {
-        // cmpwi r3,0 ; bne -(back+4)
-        words(&[0x2c030000, 0x40820000 | ((-((back as i32) + 4)) as u32 & 0xfffc)], true)
+        words(&[0x48000000 | ((-(back as i32)) as u32 & 0x03fffffc)], true)
     }
     Isa { pieces, ret: p(&[0x4e800020]), cond_fwd: cf, jump_fwd: jf, cond_back: cb }
 }
@@ -630,7 +631,7 @@ fn mc_kind(names: &[&'static str]) -> &'static str {
 fn generate(tier: Tier, rng: &mut Rng, emit: &mut Emit) {
     let (n_il, n_mc) = match tier {
         Tier::Quick => (700, 250),     // per architecture
-        Tier::Thorough => (7000, 2500), // per architecture and seed
+        Tier::Thorough => (20000, 8000), // per architecture and seed (8 seeds)
     };
     for an in ARCHS.iter() {
         let a = arch(an).unwrap();
@@ -643,6 +644,12 @@ fn generate(tier: Tier, rng: &mut Rng, emit: &mut Emit) {
         let isa = isa(an);
         for _ in 0..n_mc {
             let (bytes, shape, names) = build_mc(rng, &isa);
+            // the PPC shapes are built with unconditional branches (see `ppc_isa`)
+            let shape = match (*an, shape) {
+                ("ppc", "diamond") => "skip",
+                ("ppc", "loop") => "spin",
+                (_, s) => s,
+            };
             let cls = format!("{}/mc/{}/{}", an, shape, mc_kind(&names));
             emit.case(&cls, format!("mc {} {}", an, bytes_hex(&bytes)));
         }
